@@ -66,6 +66,11 @@ func (s *SplitStrategy) Compute(snapshots <-chan *asset.Snapshot) <-chan Action 
 				result <- Hold
 			}
 		}
+
+		// The two action streams may differ in length. Consume what is left of the
+		// longer one so that the pipeline feeding it can finish.
+		go helper.Drain(buyActions)
+		go helper.Drain(sellActions)
 	}()
 
 	return result
